@@ -308,3 +308,10 @@ def activate_tt1""", 'C08-R1'),
         return rsp[1:129]""", """        return rsp[1:129]""", 'C08-R3'),
 ]
 MUTANTS = [m for m in MUTANTS if m[4] != 'C08-NONE']
+
+triage.add('C08', 'C08-R1', key('Type2TagCommandError', 'unguarded in', 'tag.tt2.Type2Tag.NDEF._read_ndef_data: tag_memory[14]'),
+           'byte 14 is served from the memory reader cache: _read_capability_data (inside its handler) already read bytes 12, 13 and 15, '
+           'and the reader fetches 16 byte at a time and only calls the tag for an index >= len(cache)',
+           [('nfc.tag.tt2.Type2Tag.NDEF._read_capability_data', 'text:tag_memory[15] >> 4'),
+            ('nfc.tag.tt2.Type2TagMemoryReader.__getitem__', 'text:key >= len(self)'),
+            ('nfc.tag.tt2.Type2TagMemoryReader._read_from_tag', 'index += 16')])
